@@ -487,7 +487,11 @@ func (s *ObjectStorage) packfileWriter(newPack func() (*dotgit.PackWriter, error
 
 // SetEncodedObject adds a new object to the storage.
 func (s *ObjectStorage) SetEncodedObject(o plumbing.EncodedObject) (h plumbing.Hash, err error) {
-	if o.Type() == plumbing.OFSDeltaObject || o.Type() == plumbing.REFDeltaObject {
+	switch o.Type() {
+	case plumbing.CommitObject, plumbing.TreeObject, plumbing.BlobObject, plumbing.TagObject:
+	default:
+		// Deltas cannot be stored loose, and any other type makes the
+		// object writer fail before its hasher exists (Close would panic).
 		return plumbing.ZeroHash, plumbing.ErrInvalidType
 	}
 
